@@ -1,0 +1,255 @@
+//go:build verif
+
+package term
+
+import (
+	"bytes"
+	"os"
+	"sync"
+
+	"git.sr.ht/~rockorager/vaxis"
+	"git.sr.ht/~rockorager/vaxis/ansi"
+)
+
+// Verification hooks. Compiled only with -tags verif; nothing here is reachable
+// from a normal build.
+
+// verifParser only serves Model.update's deferred parser.Finish call.
+var (
+	verifParserOnce sync.Once
+	verifParser     *ansi.Parser
+)
+
+// VerifNew returns a Model of the given size with no child process. pty (may be
+// nil) stands in for the PTY: replies and key/mouse encodings are written to it.
+func VerifNew(pty *os.File, w, h int) *Model {
+	verifParserOnce.Do(func() {
+		verifParser = ansi.NewParser(bytes.NewReader(nil))
+		for range verifParser.Next() {
+		}
+	})
+	m := New()
+	m.timer.Stop()
+	// a dirty model does not re-arm the redraw timer
+	m.dirty = true
+	m.pty = pty
+	m.parser = verifParser
+	m.resize(w, h)
+	return m
+}
+
+// VerifFeed is the PTY goroutine's update path for one sequence. Events raised
+// by the sequence are drained and returned, as the goroutine's select would.
+func (vt *Model) VerifFeed(seq ansi.Sequence) []vaxis.Event {
+	vt.update(seq)
+	var evs []vaxis.Event
+	for {
+		select {
+		case ev := <-vt.events:
+			evs = append(evs, ev)
+		default:
+			return evs
+		}
+	}
+}
+
+// VerifFeedNoDrain is update without draining raised events. It blocks exactly
+// when the PTY goroutine would.
+func (vt *Model) VerifFeedNoDrain(seq ansi.Sequence) { vt.update(seq) }
+
+// VerifEvents reports the length and capacity of the raised-event queue.
+func (vt *Model) VerifEvents() (n int, capacity int) { return len(vt.events), cap(vt.events) }
+
+// VerifDrainOne consumes one raised event, if any.
+func (vt *Model) VerifDrainOne() (vaxis.Event, bool) {
+	select {
+	case ev := <-vt.events:
+		return ev, true
+	default:
+		return nil, false
+	}
+}
+
+type VerifCell struct {
+	vaxis.Cell
+	Wrapped bool
+}
+
+type VerifSaved struct {
+	Row, Col     int
+	Pen          vaxis.Style
+	Decawm       bool
+	Decom        bool
+	CharsetSel   int
+	CharsetSaved int
+	Designations [4]int
+}
+
+type VerifModes struct {
+	Kam, Irm, Srm, Lnm                                                bool
+	Decckm, Decanm, Deccolm, Decsclm, Decom, Decawm, Decarm           bool
+	Dectcem, Deckpam, Deckpnm                                         bool
+	Smcup, Paste, MouseButtons, MouseDrag, MouseMotion, MouseSGR, Alt bool
+}
+
+// VerifSnap is a read-only copy of the emulator state.
+type VerifSnap struct {
+	Width, Height  int
+	Primary, Alt   [][]VerifCell
+	AltActive      bool
+	ActiveRows     int
+	ActiveRowLens  []int
+	PrimaryRowLens []int
+	AltRowLens     []int
+	Row, Col       int
+	CursorStyle    vaxis.CursorStyle
+	Pen            vaxis.Style
+	LastCol        bool
+	Top, Bottom    int
+	Left, Right    int
+	TabStops       []int
+	Modes          VerifModes
+	SavedPrimary   VerifSaved
+	SavedAlt       VerifSaved
+	CharsetSel     int
+	CharsetSaved   int
+	SingleShift    bool
+	Designations   [4]int
+	Dirty          bool
+	Focused        bool
+	Graphics       int
+	EventsLen      int
+}
+
+func verifSaved(s cursorState) VerifSaved {
+	v := VerifSaved{
+		Row: int(s.cursor.row), Col: int(s.cursor.col), Pen: s.cursor.Style,
+		Decawm: s.decawm, Decom: s.decom,
+		CharsetSel: int(s.charsets.selected), CharsetSaved: int(s.charsets.saved),
+	}
+	for i := 0; i < 4; i++ {
+		v.Designations[i] = int(s.charsets.designations[charsetDesignator(i)])
+	}
+	return v
+}
+
+func verifGrid(g [][]cell) ([][]VerifCell, []int) {
+	out := make([][]VerifCell, len(g))
+	lens := make([]int, len(g))
+	for r := range g {
+		out[r] = make([]VerifCell, len(g[r]))
+		lens[r] = len(g[r])
+		for c := range g[r] {
+			out[r][c] = VerifCell{Cell: g[r][c].Cell, Wrapped: g[r][c].wrapped}
+		}
+	}
+	return out, lens
+}
+
+// VerifSnapshot copies the state without taking the lock the callers of update
+// hold (the harness is single-threaded around it).
+func (vt *Model) VerifSnapshot() VerifSnap {
+	s := VerifSnap{
+		Width: vt.width(), Height: vt.height(),
+		Row: int(vt.cursor.row), Col: int(vt.cursor.col),
+		CursorStyle: vt.cursor.style, Pen: vt.cursor.Style, LastCol: vt.lastCol,
+		Top: int(vt.margin.top), Bottom: int(vt.margin.bottom),
+		Left: int(vt.margin.left), Right: int(vt.margin.right),
+		SavedPrimary: verifSaved(vt.primaryState), SavedAlt: verifSaved(vt.altState),
+		CharsetSel: int(vt.charsets.selected), CharsetSaved: int(vt.charsets.saved),
+		SingleShift: vt.charsets.singleShift,
+		Dirty:       vt.dirty, Focused: atomicLoad(&vt.focused),
+		Graphics: len(vt.graphics), EventsLen: len(vt.events),
+	}
+	for i := 0; i < 4; i++ {
+		s.Designations[i] = int(vt.charsets.designations[charsetDesignator(i)])
+	}
+	s.Primary, s.PrimaryRowLens = verifGrid(vt.primaryScreen)
+	s.Alt, s.AltRowLens = verifGrid(vt.altScreen)
+	s.ActiveRows = len(vt.activeScreen)
+	s.ActiveRowLens = make([]int, len(vt.activeScreen))
+	for i := range vt.activeScreen {
+		s.ActiveRowLens[i] = len(vt.activeScreen[i])
+	}
+	s.AltActive = len(vt.activeScreen) > 0 && len(vt.altScreen) > 0 &&
+		len(vt.activeScreen[0]) > 0 && len(vt.altScreen[0]) > 0 &&
+		&vt.activeScreen[0][0] == &vt.altScreen[0][0]
+	if len(vt.activeScreen) > 0 && len(vt.altScreen) > 0 && len(vt.activeScreen[0]) == 0 {
+		s.AltActive = vt.mode.smcup
+	}
+	for _, t := range vt.tabStop {
+		s.TabStops = append(s.TabStops, int(t))
+	}
+	m := vt.mode
+	s.Modes = VerifModes{
+		Kam: m.kam, Irm: m.irm, Srm: m.srm, Lnm: m.lnm,
+		Decckm: m.decckm, Decanm: m.decanm, Deccolm: m.deccolm, Decsclm: m.decsclm,
+		Decom: m.decom, Decawm: m.decawm, Decarm: m.decarm,
+		Dectcem: m.dectcem, Deckpam: m.deckpam, Deckpnm: m.deckpnm,
+		Smcup: m.smcup, Paste: m.paste, MouseButtons: m.mouseButtons, MouseDrag: m.mouseDrag,
+		MouseMotion: m.mouseMotion, MouseSGR: m.mouseSGR, Alt: m.altScroll,
+	}
+	return s
+}
+
+func verifCloneGrid(g [][]cell) [][]cell {
+	out := make([][]cell, len(g))
+	for r := range g {
+		out[r] = append([]cell(nil), g[r]...)
+		if out[r] == nil {
+			out[r] = []cell{}
+		}
+	}
+	return out
+}
+
+func verifCloneCharsets(c charsets) charsets {
+	n := c
+	n.designations = map[charsetDesignator]charset{}
+	for k, v := range c.designations {
+		n.designations[k] = v
+	}
+	return n
+}
+
+// VerifClone returns an independent deep copy (same pty stand-in, fresh event
+// queue holding the same events).
+func (vt *Model) VerifClone() *Model {
+	n := &Model{
+		OSC8: vt.OSC8, TERM: vt.TERM, vx: vt.vx,
+		cursor: vt.cursor, margin: vt.margin, mode: vt.mode, sShift: vt.sShift,
+		lastCol: vt.lastCol, dirty: vt.dirty, parser: vt.parser, pty: vt.pty,
+		rows: vt.rows, cols: vt.cols, eventHandler: vt.eventHandler,
+		focused: vt.focused, timer: vt.timer,
+	}
+	n.primaryScreen = verifCloneGrid(vt.primaryScreen)
+	n.altScreen = verifCloneGrid(vt.altScreen)
+	alt := len(vt.activeScreen) > 0 && len(vt.altScreen) > 0 && len(vt.altScreen[0]) > 0 &&
+		len(vt.activeScreen[0]) > 0 && &vt.activeScreen[0][0] == &vt.altScreen[0][0]
+	if len(vt.activeScreen) > 0 && len(vt.activeScreen[0]) == 0 {
+		alt = vt.mode.smcup
+	}
+	if alt {
+		n.activeScreen = n.altScreen
+	} else {
+		n.activeScreen = n.primaryScreen
+	}
+	n.charsets = verifCloneCharsets(vt.charsets)
+	n.primaryState = vt.primaryState
+	n.primaryState.charsets = verifCloneCharsets(vt.primaryState.charsets)
+	n.altState = vt.altState
+	n.altState.charsets = verifCloneCharsets(vt.altState.charsets)
+	n.tabStop = append([]column(nil), vt.tabStop...)
+	n.graphics = append([]*Image(nil), vt.graphics...)
+	n.events = make(chan vaxis.Event, cap(vt.events))
+	k := len(vt.events)
+	for i := 0; i < k; i++ {
+		ev := <-vt.events
+		vt.events <- ev
+		n.events <- ev
+	}
+	return n
+}
+
+// VerifSetFocus sets the focus flag without touching anything else.
+func (vt *Model) VerifSetFocus(f bool) { atomicStore(&vt.focused, f) }
